@@ -18,6 +18,17 @@ if state:
     n += 1
     open(state, "w").write(str(n))
 data = sys.stdin.buffer.read()
+cap = os.environ.get("FAKE_CAPTURE")
+if cap:
+    open(os.path.join(cap, "in_%d" % n), "wb").write(data)
+canned = os.environ.get("FAKE_REPLY_DIR")
+if canned:
+    # scripted replies: file reply_<n> is printed verbatim
+    p = os.path.join(canned, "reply_%d" % n)
+    out = open(p, "rb").read() if os.path.exists(p) else b""
+    sys.stdout.buffer.write(out)
+    sys.stdout.flush()
+    sys.exit(0)
 if n == fail_at:
     if kind == "exit":
         sys.exit(3)
@@ -38,6 +49,8 @@ if n == fail_at:
     sys.stdout.flush()
     sys.exit(0)
 p = subprocess.run(["/usr/local/bin/kissat", "-q"], input=data, stdout=subprocess.PIPE)
+if cap:
+    open(os.path.join(cap, "out_%d" % n), "wb").write(p.stdout)
 sys.stdout.write(p.stdout.decode())
 sys.stdout.flush()
 sys.exit(0)
